@@ -18,7 +18,7 @@ elements {org,a,b,ab,a-b,A,b2,x1,test} (2-4 elements: shared prefixes, last-elem
 case), optionally plus the generator-made org.verif.test family; arbitrary vendor/product/version/url and \
 description strings; method strings derived from the name set (exact, prefix, extension, case change, empty \
 elements, leading/trailing dot, no dot, built-in interface) x arbitrary JSON parameters x flag combinations. \
-Oracle: independent routing function (split at the last dot, set lookup) + what each recorder saw. Non-trivial: \
+Oracle: independent routing function (split at the last dot, set lookup) + what each recorder saw. Recorder descriptions vary in shape (no final newline, several, CRLF, trailing blanks, leading blank lines) and must come back byte for byte. Non-trivial: \
 the called interface name is a proper prefix / extension / case variant of a registered name, or the method string \
 is malformed (empty element, leading/trailing dot, no dot); distinct by (name set, method string).";
 
